@@ -159,9 +159,9 @@ fn main() {
     rep.rule("every selection component executed on prepared two-population stacks of uniquely tagged individuals (sizes 0..8, duplicate/tied/negative/zero/infinite objective values) x requested counts {0,1,size-1,size,size+3} x seeds: stack below and source untouched (also after an error), exactly one population pushed, members are exact copies, count/distinctness as requested, documented unusable inputs give Err (never a panic); helper laws (proportional_weights antitone and >= offset, objective_bounds, reverse_rank monotone); selection pressure: per-pair frequency comparison over N draws with a Hoeffding margin, tournament over the whole population returns a best individual; DE selections: length and block layout. distinct_nontrivial = distinct (operator, parameters, population) cells");
     rep.assume("inputs that are neither valid nor documented as errors (e.g. FullyRandom on an empty population, tournament size 0) are not judged; frequency margin 2*sqrt(ln(2/1e-10)/(2N))");
     let mut rng = SplitMix64::new(rep.seed).fork(0xC11);
-    let pops = populations(&mut rng, rep.tier.pick(60, 1500));
+    let pops = populations(&mut rng, rep.tier.pick(300, 1500));
     let below: Vec<T> = vec![(900, 7.0f64.to_bits()), (901, 8.0f64.to_bits())];
-    let seeds = rep.tier.pick(4u64, 32u64);
+    let seeds = rep.tier.pick(8u64, 32u64);
     for (pi, src) in pops.iter().enumerate() {
         let size = src.len();
         let finite = src.iter().all(|t| val(t).is_finite());
